@@ -21,7 +21,7 @@ from permcorr import fake_cutoff, impl_cpt_labels, random_near
 from solvers import COMBOS, Prepared, solver_cells
 from tensors import same_span
 
-UNITS = ["BatchGen", "Tables", "EigStruct", "LogIndep", "ShapesRef", "ShapesSolvers", "ShapesPerm", "ShapesSumRule", "ShapesAuxBatch", "ShapesAuxPerm3", "SkelSolvers", "SkelMat", "SkelPerm", "ShapesBasis", "SkelBasis", "ShapesCoset", "SkelEig", "ShapesAuxEig", "SkelIdx", "ShapesApi", "SkelApi"]
+UNITS = ["BatchGen", "Tables", "EigStruct", "LogIndep", "ShapesRef", "ShapesSolvers", "ShapesPerm", "ShapesSumRule", "ShapesAuxBatch", "ShapesAuxPerm3", "SkelSolvers", "SkelMat", "SkelPerm", "ShapesBasis", "SkelBasis", "ShapesCoset", "SkelEig", "ShapesAuxEig", "SkelIdx", "ShapesApi", "SkelApi", "IndepGen", "ShapesSpg", "ShapesReps", "SkelSpg"]
 PROPS = ["props/C11.v"]
 ASSUMPTIONS = ["floating-point non-associativity, BLAS threading and log level are outside any theorem (differential tests, 1e-8 relative)"]
 
